@@ -101,13 +101,16 @@ def fields_str(f):
     return ' '.join(f'{k}={v}' for k, v in f.items())
 
 def rand_garbage(rng, n, syncfree):
-    out = []
-    for _ in range(n):
-        b = rng.randint(0, 255)
-        if syncfree and b == 0xFF:
-            b = 0xFE
-        out.append(b)
-    if not syncfree and n >= 2 and rng.random() < 0.7:
-        i = rng.randint(0, n - 2)
+    """junk between frames.  `syncfree`: no 0xFF followed by 0xF8/0xF9 — single 0xFF bytes and runs of 0xFF
+    (also directly in front of the next frame) are allowed and deliberately common"""
+    out = [rng.choice([0xFF, 0xFF, 0xF8, 0xF9, 0x00]) if rng.random() < 0.25 else rng.randint(0, 255) for _ in range(n)]
+    if rng.random() < 0.4:
+        out += [0xFF] * rng.randint(1, 4)
+    if syncfree:
+        for i in range(len(out) - 1):
+            if out[i] == 0xFF and out[i + 1] in (0xF8, 0xF9):
+                out[i + 1] = 0xFA
+    elif len(out) >= 2 and rng.random() < 0.7:
+        i = rng.randint(0, len(out) - 2)
         out[i] = 0xFF; out[i + 1] = rng.choice([0xF8, 0xF9])
     return bytes(out).hex()
